@@ -20,7 +20,7 @@ func init() {
 	Register("C16", &Info{
 		Run:   runC16,
 		Quick: 1200, Thor: 120000,
-		Rule: "a world = one parrot whose spec carries a GREASE ECH extension (Chrome 120/120_PQ/131/133, Firefox 120, generated specs with BoringGREASEECH) and no real ECH config, one real connection against a plain or HelloRetryRequest-forcing server (hellos taken from the wire) plus 11 further hellos built in the same world; oracle: outer type, KDF/AEAD pair from the spec's candidate list, 32-byte encapsulated key, payload length = candidate + 16, identical extension bytes in CH1 and CH2, config id / key / payload not all equal across the 12 connections; non-trivial = GREASE ECH extension on the wire (HRR stratum: CH2 exists); distinct = (parrot, kdf, aead, payload length, hrr)",
+		Rule: "a world = one parrot whose spec carries a GREASE ECH extension (Chrome 120/120_PQ/131/133, Firefox 120, generated specs with BoringGREASEECH) and no real ECH config, one real connection against a plain or HelloRetryRequest-forcing server (repository, std, or the reference server whose HelloRetryRequest also carries a cookie; hellos taken from the wire), optionally while 10-60 other hellos are built by another task of the same process at a drawn scheduler step, plus 11 further hellos built in the same world; oracle: outer type, KDF/AEAD pair from the spec's candidate list, 32-byte encapsulated key, payload length = candidate + 16, identical extension bytes in CH1 and CH2, config id / key / payload not all equal across the 12 connections; non-trivial = GREASE ECH extension on the wire (HRR stratum: CH2 exists); distinct = (parrot, kdf, aead, payload length, hrr)",
 		Assumptions: []string{"the candidate lists are read from the public fields of the spec's GREASEEncryptedClientHelloExtension (they are the definition of the expected values)",
 			"freshness: 12 draws of an 8-bit config id all equal has probability 256^-11 for a uniform source"},
 		Real: []string{"utls client from /repo", "utls or std server"},
@@ -29,8 +29,8 @@ func init() {
 	Register("C17", &Info{
 		Run:   runC17,
 		Quick: 2500, Thor: 250000,
-		Rule: "a world = one TLS 1.3 fingerprint (parrots by stratum, randomized, generated specs; no PSK, no real ECH) x one classical group the hello lists but sent no share for, forced by the server's single-entry CurvePreferences (repository server, std server, or the reference server which also puts a cookie of 1..1000 bytes into the HelloRetryRequest); oracle: structural diff of CH1 and CH2 taken from the wire (everything equal except key_share, cookie, padding), key_share = exactly one share of the requested group with the right size, handshake completes and echoes; non-trivial = CH2 exists; distinct = (fingerprint, group, peer)",
-		Assumptions: []string{"invalid HelloRetryRequests (unoffered group, group already shared) are covered by C12's deviations hrr-unoffered-group and hrr-group-already-shared"},
+		Rule: "a world = one TLS 1.3 fingerprint (parrots by stratum, randomized, generated specs; no PSK, no real ECH) x one classical group the hello lists but sent no share for, forced by the server's single-entry CurvePreferences (repository server, std server, or the reference server which also puts a cookie of 1..4000 bytes, including the lengths around 255/256/511/512, into the HelloRetryRequest); 15% of the worlds send a HelloRetryRequest the client must refuse (group of any share already sent, or unlisted group; with or without cookie); oracle: structural diff of CH1 and CH2 taken from the wire (everything equal except key_share, cookie, padding), key_share = exactly one share of the requested group with the right size, handshake completes and echoes; non-trivial = CH2 exists; distinct = (fingerprint, group, peer)",
+		Assumptions: []string{"a refused HelloRetryRequest = no second ClientHello on the wire and no completed handshake"},
 		Real:        []string{"utls client from /repo", "utls or std server"},
 		Stub:        []string{"transport, clock, crypto/rand"},
 	})
@@ -103,12 +103,37 @@ func runC16(c *Ctx) {
 		scfg.CurvePreferences = []tls.CurveID{tls.CurveP384}
 		stdcfg.CurvePreferences = []stdtls.CurveID{stdtls.CurveP384}
 	}
-	sp := &ConnSpec{ID: idi.ID, Spec: freshSpec(newSpec), CCfg: mk(), Peer: peer, SCfg: scfg, StdCfg: stdcfg, Payload: [][]byte{[]byte("x")},
+	// a third of the HelloRetryRequest worlds use the reference server, whose HelloRetryRequest also
+	// carries a cookie (the second hello then gains an extension the spec did not have)
+	var rcfg *refsrv.Config
+	cookie := false
+	if forceHRR && ch.Bool(40, "hrr-cookie") {
+		peer = PeerRef
+		rcfg = refCfg()
+		rcfg.CurvePreferences = []refsrv.CurveID{refsrv.CurveP384}
+		ck := make([]byte, ch.Range(1, 300, "cookie-len"))
+		ch.Bytes(ck, "cookie")
+		rcfg.Byz.HRRCookie = ck
+		cookie = true
+	}
+	// other connections of the same process build their hellos while this one is in flight
+	busy := 0
+	if ch.Bool(30, "busy-process") {
+		busy = ch.Range(10, 60, "busy-n")
+		at := ch.Range(0, 14, "busy-at")
+		w.Go("others", func() {
+			simrt.WaitSteps(at)
+			for i := 0; i < busy; i++ {
+				DryHello(mk(), idi.ID, freshSpec(newSpec))
+			}
+		})
+	}
+	sp := &ConnSpec{ID: idi.ID, Spec: freshSpec(newSpec), CCfg: mk(), Peer: peer, SCfg: scfg, StdCfg: stdcfg, RefCfg: rcfg, Payload: [][]byte{[]byte("x")},
 		Setup: func(l *simnet.Link) { l.Frag = ch.Bool(30, "frag") }}
 	o := RunConn(c, w, sp)
 	c.Finish(w, true)
 	obs := ObserveHellos(o.Link)
-	c.R.Class = fmt.Sprintf("%s/%s hrr=%v", kind, idi.Name, forceHRR)
+	c.R.Class = fmt.Sprintf("%s/%s hrr=%v cookie=%v busy=%d", kind, idi.Name, forceHRR, cookie, busy)
 	if c.R.Violation != nil {
 		return
 	}
@@ -162,6 +187,9 @@ func runC16(c *Ctx) {
 	c.R.NonTrivial = !forceHRR || len(obs.CH) > 1
 	if len(obs.CH) > 1 {
 		c.Probe("hrr")
+		if cookie {
+			c.Probe("hrr-with-cookie")
+		}
 		a, _ := obs.CH[0].Ext(0xfe0d)
 		b, ok := obs.CH[1].Ext(0xfe0d)
 		if !ok || !bytes.Equal(a.Data, b.Data) {
@@ -223,6 +251,49 @@ func runC17(c *Ctx) {
 	if !has16(of.Versions, 0x0304) {
 		return // not a TLS 1.3 fingerprint: trivial world
 	}
+	if ch.Bool(15, "invalid-hrr") {
+		// a HelloRetryRequest the client must refuse: for a group it already sent a share for (any of
+		// its shares, not only the first) or for a group it does not list; with or without a cookie
+		var shared []uint16
+		for _, g := range of.Shares {
+			if g == 23 || g == 24 || g == 25 || g == 29 {
+				shared = append(shared, g)
+			}
+		}
+		rcfg := refCfg()
+		rcfg.NextProtos = of.ALPN
+		what := "already-shared"
+		var g uint16
+		if len(shared) > 0 && ch.Bool(70, "already-shared") {
+			g = shared[ch.Pick(len(shared), "shared-idx")]
+		} else if u, ok := firstNotIn([]uint16{25, 24, 23, 29}, of.Groups); ok {
+			g, what = u, "unlisted"
+		} else {
+			return
+		}
+		rcfg.Byz.HRRGroup, rcfg.Byz.HRRAlways = refsrv.CurveID(g), true
+		if ch.Bool(40, "cookie") {
+			rcfg.Byz.HRRCookie = []byte("invalid-hrr-cookie")
+		}
+		o := RunConn(c, w, &ConnSpec{ID: f.IDI.ID, Spec: f.Spec(), CCfg: negCfg(), Peer: PeerRef, RefCfg: rcfg, Payload: [][]byte{[]byte("no")},
+			Setup: func(l *simnet.Link) { l.Frag = ch.Bool(40, "frag") }})
+		c.Finish(w, true)
+		c.R.Class += fmt.Sprintf(" invalid-hrr=%s g=%d shares=%v cookie=%v", what, g, of.Shares, len(rcfg.Byz.HRRCookie) > 0)
+		if c.R.Violation != nil {
+			return
+		}
+		obs := ObserveHellos(o.Link)
+		if len(obs.SH) == 0 || !obs.SH[0].IsHRR {
+			c.R.Harness = "invalid-hrr stratum: no HelloRetryRequest on the wire: " + o.Describe()
+			return
+		}
+		c.R.NonTrivial = true
+		c.Probe("invalid-hrr-" + what)
+		if len(obs.CH) > 1 || o.CDone {
+			c.Violate(fmt.Sprintf("invalid-hrr-followed %s %s", what, f.Kind), "%s: the client answered with a second ClientHello (count=%d, completed=%v) instead of aborting", c.R.Class, len(obs.CH), o.CDone)
+		}
+		return
+	}
 	peer := ch.Pick(3, "peer") // 2 = reference server, which adds a cookie to the HelloRetryRequest
 	var cands []uint16
 	for _, g := range of.Groups {
@@ -240,7 +311,7 @@ func runC17(c *Ctx) {
 	var cookie []byte
 	rcfg := refCfg()
 	if peer == PeerRef {
-		cookie = make([]byte, []int{1, 2, 32, 200, 1000}[ch.Pick(5, "cookie-len")])
+		cookie = make([]byte, []int{1, 2, 32, 200, 253, 254, 255, 256, 257, 510, 511, 512, 1000, 4000}[ch.Pick(14, "cookie-len")])
 		ch.Bytes(cookie, "cookie")
 		rcfg.CurvePreferences = []refsrv.CurveID{refsrv.CurveID(g)}
 		rcfg.Byz.HRRCookie = cookie
